@@ -811,4 +811,37 @@ theorem solution_idempotent (s : SysDef Rat) (sol : Sol Rat) :
   obtain ⟨si, cells⟩ := sol
   cases si <;> simp [Sol.convertFromSI, Sol.convertToSI]
 
+/-! ### UDA items -/
+
+/-- A UDA value that came from the deck converts exactly like element `i` of a double item
+(active dimension `i mod n`): `get<UDAValue>(i).getSI()` is element `i` of the SI image. -/
+theorem uda_deck_value (it : Item Rat) (wf : it.WF) (i : Nat) (x : Rat) (hx : it.dval[i]? = some x)
+    (hst : (it.status.getD i .uninitialized).defaulted = false) :
+    ∃ y, (siOf it.active it.dflt 0 it.dval it.status)[i]? = some y ∧
+      (match it.uda i with | .si z => z = y | _ => False) := by
+  obtain ⟨d, y, h1, h2, h3, _⟩ := siOf_getElem wf.lenD wf.ne wf.actOk wf.dfltOk 0 it.dval it.status i x hx
+  refine ⟨y, h3, ?_⟩
+  have hne : it.active.isEmpty = false := by
+    cases hh : it.active with
+    | nil => exact absurd hh wf.ne
+    | cons _ _ => rfl
+  unfold dimFor at h1
+  simp only [hst, Bool.false_eq_true, if_false, Nat.zero_add] at h1
+  simp only [Item.uda, hx, hne, Bool.false_eq_true, if_false, hst, h1, h2]
+
+/-- A defaulted UDA value carries no number, only the DEFAULT dimension. -/
+theorem uda_defaulted (it : Item Rat) (wf : it.WF) (i : Nat) (x : Rat) (hx : it.dval[i]? = some x)
+    (hst : (it.status.getD i .uninitialized).defaulted = true) :
+    ∃ d, it.dflt[i % it.active.length]? = some d ∧
+      (match it.uda i with | .undefined d' => d' = d | _ => False) := by
+  have hne : it.active.isEmpty = false := by
+    cases hh : it.active with
+    | nil => exact absurd hh wf.ne
+    | cons _ _ => rfl
+  obtain ⟨d, hd1, _⟩ := dimFor_ok wf.lenD wf.ne wf.actOk wf.dfltOk i (it.status.getD i .uninitialized)
+  unfold dimFor at hd1
+  simp only [hst, if_true] at hd1
+  refine ⟨d, hd1, ?_⟩
+  simp only [Item.uda, hx, hne, Bool.false_eq_true, if_false, hst, if_true, hd1]
+
 end OpmVerif.Units
